@@ -1,10 +1,212 @@
-/- driver handler for component Lex: requests whose first token belongs to it -/
+/-
+  driver handler for component Lex (C14, C15).  Requests (tokens separated by blanks; `|` and `;`
+  are separator tokens; items / sentences in the encoding of Ptx/Wire.lean + Ptx/Lang/LexWire.lean):
+
+    key <item>                          -> the sort_tuple, e.g. `90 50 20 60 0 0`
+    cmp <item> | <item>                 -> `<orderitems int> lt|eq|gt`
+    sort <item> | <item> | …            -> the items sorted, ` | `-separated
+    argcmp <sent> | <sent> … ; <sent> | …   (conclusion first, then premises) -> lt|eq|gt
+    subst <new param> <old param> <sent>    -> <sent>
+    unq <ci> <cs> <sent>                -> `some <sent>` | `none`
+    neg <sent>                          -> <sent>
+    derived <sent>                      -> `C <n> <param>*n ; V … ; P <n> (<idx> <sub> <ar>)*n ; A <n> (<i> <s>)*n ; O <ops> ; Q <quants>`
+                                           (sets sorted by the model's own order)
+    walk <sent>                         -> paramOccs / ops / quants of the independent walk, same format
+    ident <item>                        -> the ident as a Python value (arg encoding below)
+    cache <f1><f2> <maxlen> ; <call> ; <call> …
+        f1,f2 ∈ {0,1}: candidate fixes 1 (system predicate by spec) and 2 (maxlen 0) applied or not
+        call ::= <Cls> <n> <arg>*n        Cls ∈ Predicate Constant Variable Atomic Predicated Quantified
+                                                Operated LexicalAbc CoordsItem Parameter Sentence
+        arg  ::= i <int> | s:<text with _ for blank> | t <n> <arg>*n | x <item>
+      -> one result per call, ` ; `-separated: `ok <item>` | `err:<kind>`; if the cache-free build of
+         the same call differs (never, by C14.cache_transparent) `!<that result>` is appended;
+         then ` ; state q=<len> idx=<len> rev=<len> inv=<0|1>` (structural invariant of the final cache)
+-/
 import Ptx.Wire
+import Ptx.Lang.LexWire
+import Ptx.Lang.Derived
+import Ptx.Lang.Cache
 namespace Ptx.Drv.Lex
+open Ptx Ptx.Wire
+
+def ordStr (d : Int) : String := if d < 0 then "lt" else if d = 0 then "eq" else "gt"
+
+def parseItems (ts : Toks) : Option (List Item) :=
+  (splitAt "|" ts).mapM fun seg =>
+    match parseItem seg with
+    | some (x, []) => some x
+    | _ => none
+
+def parseSents (ts : Toks) : Option (List Sent) :=
+  (splitAt "|" ts).mapM fun seg =>
+    match parseSent seg with
+    | some (x, []) => some x
+    | _ => none
+
+def sortBy {α} (le : α → α → Bool) : List α → List α
+  | [] => []
+  | x :: xs => ins x (sortBy le xs)
+where ins (x : α) : List α → List α
+  | [] => [x]
+  | y :: ys => if le x y then x :: y :: ys else y :: ins x ys
+
+def sortParams (ps : List Param) : List Param :=
+  sortBy (fun a b => orderitems (.param a) (.param b) ≤ 0) ps
+def sortPreds (ps : List Pred) : List Pred :=
+  sortBy (fun a b => orderitems (.pred a) (.pred b) ≤ 0) ps
+def sortAtoms (ps : List (Nat × Nat)) : List (Nat × Nat) :=
+  sortBy (fun a b => orderitems (.sent (.atom a.1 a.2)) (.sent (.atom b.1 b.2)) ≤ 0) ps
+
+def showDerived (cs vs : List Param) (ps : List Pred) (as : List (Nat × Nat)) (os : List Op)
+    (qs : List Quant) : String :=
+  let sp := fun (l : List String) => String.join (l.map (" " ++ ·))
+  s!"C {cs.length}" ++ sp (cs.map showParam) ++
+  s!" ; V {vs.length}" ++ sp (vs.map showParam) ++
+  s!" ; P {ps.length}" ++ sp (ps.map fun p => s!"{p.index} {p.sub} {p.arity}") ++
+  s!" ; A {as.length}" ++ sp (as.map fun a => s!"{a.1} {a.2}") ++
+  " ; O" ++ sp (os.map Op.tok) ++
+  " ; Q" ++ sp (qs.map Quant.tok)
+
+def handleBasic (ts : List String) : Option String :=
+  match ts with
+  | "key" :: r =>
+    match parseItem r with
+    | some (x, []) => some (showInts (sortKey x))
+    | _ => some "err:wire"
+  | "cmp" :: r =>
+    match parseItems r with
+    | some [x, y] => let d := orderitems x y; some s!"{d} {ordStr d}"
+    | _ => some "err:wire"
+  | "sort" :: r =>
+    match parseItems r with
+    | some xs => some (" | ".intercalate ((sortItems xs).map showItem))
+    | none => some "err:wire"
+  | "argcmp" :: r =>
+    match (splitAt ";" r).map parseSents with
+    | [some (c1 :: p1), some (c2 :: p2)] => some (ordStr (argCmp ⟨p1, c1⟩ ⟨p2, c2⟩))
+    | _ => some "err:wire"
+  | "subst" :: r =>
+    match parseParam r with
+    | some (new, r) =>
+      match parseParam r with
+      | some (old, r) =>
+        match parseSent r with
+        | some (s, []) => some (showSent (s.subst new old))
+        | _ => some "err:wire"
+      | none => some "err:wire"
+    | none => some "err:wire"
+  | "unq" :: ci :: cs :: r =>
+    match natTok ci, natTok cs, parseSent r with
+    | some ci, some cs, some (s, []) =>
+      match s.unquantify ci cs with
+      | some t => some ("some " ++ showSent t)
+      | none => some "none"
+    | _, _, _ => some "err:wire"
+  | "neg" :: r =>
+    match parseSent r with
+    | some (s, []) => some (showSent s.negative)
+    | _ => some "err:wire"
+  | "derived" :: r =>
+    match parseSent r with
+    | some (s, []) =>
+      some (showDerived (sortParams s.constants) (sortParams s.variables) (sortPreds s.predicates)
+        (sortAtoms s.atomics) s.operators s.quantifiers)
+    | _ => some "err:wire"
+  | "walk" :: r =>
+    match parseSent r with
+    | some (s, []) =>
+      let ps := paramOccs s
+      some (showDerived (sortParams (toSet (ps.filter Param.isConst))) (sortParams (toSet (ps.filter Param.isVar)))
+        (sortPreds (toSet (predOccs s))) (sortAtoms (toSet (atomOccs s))) (preorderOps s) (preorderQuants s))
+    | _ => some "err:wire"
+  | _ => none
+
+/-! cache requests -/
+
+def clsTok : String → Option Cls
+  | "Predicate" => some .predicate | "Constant" => some .constant | "Variable" => some .variable_
+  | "Atomic" => some .atomic | "Predicated" => some .predicated | "Quantified" => some .quantified
+  | "Operated" => some .operated | "LexicalAbc" => some .lexicalAbc | "CoordsItem" => some .coordsItem
+  | "Parameter" => some .parameter | "Sentence" => some .sentence | _ => none
+
+mutual
+def parseArgF : Nat → Toks → Option (Arg × Toks)
+  | 0, _ => none
+  | f+1, ts =>
+    match ts with
+    | "i" :: n :: r => do some (.int (← intTok n), r)
+    | "t" :: n :: r => do
+      let (xs, r) ← parseArgsF f (← natTok n) r
+      some (.tuple xs, r)
+    | "x" :: r => do
+      let (x, r) ← parseItem r
+      some (.item x, r)
+    | t :: r =>
+      if t.startsWith "s:" then some (.str ((t.drop 2).toString.replace "_" " "), r) else none
+    | [] => none
+def parseArgsF : Nat → Nat → Toks → Option (List Arg × Toks)
+  | 0, _, _ => none
+  | _, 0, r => some ([], r)
+  | f+1, n+1, r => do
+    let (a, r) ← parseArgF f r
+    let (as, r) ← parseArgsF f n r
+    some (a :: as, r)
+end
+
+def parseCall (ts : Toks) : Option (Cls × List Arg) :=
+  match ts with
+  | c :: n :: r => do
+    let cls ← clsTok c
+    let (xs, r) ← parseArgsF (ts.length + 2) (← natTok n) r
+    if r.isEmpty then some (cls, xs) else none
+  | _ => none
+
+partial def showArg : Arg → String
+  | .int n => s!"i {n}"
+  | .str s => "s:" ++ s.replace " " "_"
+  | .tup xs => s!"t {xs.toList.length}" ++ String.join (xs.toList.map fun a => " " ++ showArg a)
+  | .item x => "x " ++ showItem x
+
+def errStr : Err → String
+  | .type => "type" | .value => "value" | .attr => "attr" | .key => "key" | .index => "index"
+  | .negIndex => "negindex" | .fuel => "fuel"
+
+def showR : R → String
+  | .ok x => "ok " ++ showItem x
+  | .error e => "err:" ++ errStr e
+
+/-- the structural part of the cache invariant, executable -/
+def cacheShapeOK (c : Cache) : Bool :=
+  c.rev.map (·.1) == c.queue && c.queue.length ≤ c.maxlen &&
+  c.rev.all (fun e => e.2.contains (.item e.1) && e.2.all fun k => assocGet k c.idx == some e.1) &&
+  c.idx.all (fun e => match assocGet e.2 c.rev with | some ks => ks.contains e.1 | none => false)
+
+def handleCache (ts : List String) : Option String :=
+  match ts with
+  | "ident" :: r =>
+    match parseItem r with
+    | some (x, []) => some (showArg (identArg x))
+    | _ => some "err:wire"
+  | "cache" :: fx :: ml :: r =>
+    let fixes : Option Fixes := match fx with
+      | "11" => some ⟨true, true⟩ | "10" => some ⟨true, false⟩
+      | "01" => some ⟨false, true⟩ | "00" => some ⟨false, false⟩ | _ => none
+    match fixes, natTok ml, (splitAt ";" r).tail.mapM parseCall with
+    | some fx, some ml, some calls =>
+      let (outs, c) := calls.foldl (fun (acc : List String × Cache) (cl : Cls × List Arg) =>
+        let (r, c') := metacall fx acc.2 cl.1 cl.2
+        let b := build fx cl.1 cl.2
+        let o := showR r ++ (if showR r == showR b then "" else " !" ++ showR b)
+        (acc.1 ++ [o], c')) ([], Cache.empty ml)
+      some (" ; ".intercalate (outs ++
+        [s!"state q={c.queue.length} idx={c.idx.length} rev={c.rev.length} inv={if cacheShapeOK c then 1 else 0}"]))
+    | _, _, _ => some "err:wire"
+  | _ => none
 
 /-- `none` = not my request -/
 def handle (ts : List String) : Option String :=
-  match ts with
-  | _ => none
+  match handleBasic ts with
+  | some r => some r
+  | none => handleCache ts
 
 end Ptx.Drv.Lex
